@@ -2414,7 +2414,13 @@ theorem groupDigests_attribution (occs : List Occ) (gs : List Group) (h : groupD
   unfold groupDigests at h
   have hperm := sortKey_perm (fun a b => keyLe (occKey a) (occKey b)) occs
   split at h
-  · simp at h
+  · rename_i hs
+    simp only [Option.some.injEq] at h
+    subst h
+    rw [hs] at hperm
+    have : occs = [] := List.Perm.eq_nil hperm.symm
+    subst this
+    simp
   · rename_i d0 rest hs
     simp only [Option.some.injEq] at h
     subst h
@@ -2432,6 +2438,23 @@ example : (groupDigests
       (fun gs => gs.map fun g => (posRank g.pos, g.seq, g.prots)) =
     some [(0, [65, 75], [1]), (0, [77, 67, 83, 75], [0]), (1, [77, 67, 83, 75], [1]), (1, [89, 71], [0])] := by
   decide +kernel
+
+
+/-- **C06.groupDigests_nil** — an empty digest list gives no groups (the guarded `group_digests`; it used to index
+    `digests[0]` and panic), and `Parameters::digest` on proteins without any digest is the empty database. -/
+theorem groupDigests_nil : groupDigests [] = some [] := by
+  simp [groupDigests, sortKey]
+
+theorem database_no_digest {α : Type} [Add α] [OfNat α 0] [BEq α] [LE α] [DecidableLE α] (h2o : α) (table : List α)
+    (same : Peptide α → Peptide α → Bool) (par : Sage.C05.Params) (proteins : List (List UInt8))
+    (vars statics : List (Target × α)) (max : Nat) (lo hi : α) (h : occsOf par proteins = []) :
+    database h2o table same par proteins vars statics max lo hi = some [] := by
+  unfold database
+  rw [h, groupDigests_nil]
+  simp [mergeAll]
+
+/-- non-vacuity: no protein at all -/
+example : occsOf (⟨0, 5, 50, none⟩ : Sage.C05.Params) [] = [] := rfl
 
 
 end Sage.C06
